@@ -421,6 +421,9 @@ type c3Table struct {
 	Unary   []string
 	Aliases map[string]string // text alias -> operator
 	aliasOf map[string][]string
+	// Route: the order of the declaring calls (the resulting tables are the same): 0 = Op(all), Unary(all);
+	// 1 = Unary(all) first; 2 = Op(first half), Unary(all), Op(rest); 3 = one call per operator, Unary calls in between
+	Route int
 }
 
 func (t *c3Table) n() int { return len(t.Ops) }
@@ -514,11 +517,37 @@ func (t *c3Table) newParser() *parser2.Parser[string] {
 		SetNumberParser(parser2.NumberParserFunc[string](func(n string) (string, error) { return "N" + n, nil })).
 		SetStringConverter(parser2.StringConverterFunc[string](func(s string) string { return "S" + s })).
 		SetKeyWords(c3KeyWords...)
-	if len(t.Ops) > 0 {
-		p.Op(append([]string(nil), t.Ops...)...)
-	}
-	if len(t.Unary) > 0 {
-		p.Unary(t.Unary...)
+	ops := append([]string(nil), t.Ops...)
+	switch {
+	case t.Route == 1:
+		if len(t.Unary) > 0 {
+			p.Unary(t.Unary...)
+		}
+		if len(ops) > 0 {
+			p.Op(ops...)
+		}
+	case t.Route == 2 && len(ops) > 1:
+		p.Op(ops[:len(ops)/2]...)
+		if len(t.Unary) > 0 {
+			p.Unary(t.Unary...)
+		}
+		p.Op(ops[len(ops)/2:]...)
+	case t.Route == 3:
+		for i := 0; i < len(ops) || i < len(t.Unary); i++ {
+			if i < len(t.Unary) {
+				p.Unary(t.Unary[i])
+			}
+			if i < len(ops) {
+				p.Op(ops[i])
+			}
+		}
+	default:
+		if len(ops) > 0 {
+			p.Op(ops...)
+		}
+		if len(t.Unary) > 0 {
+			p.Unary(t.Unary...)
+		}
 	}
 	if len(t.Aliases) > 0 {
 		m := map[string]string{}
@@ -1453,7 +1482,7 @@ func (h *c3H) replay(tab *c3Table, stream, text string, extra map[string]any) ma
 		al[k] = v
 	}
 	m := map[string]any{"stream": stream, "ops": append([]string{}, tab.Ops...), "unary": append([]string{}, tab.Unary...),
-		"aliases": al, "text": text, "text_cps": cps(text),
+		"aliases": al, "text": text, "text_cps": cps(text), "route": tab.Route,
 		"parser": "NewParser[string]; number n->\"N\"+n; string s->\"S\"+s; keywords let func if then else switch case default try catch; Op(ops...); Unary(unary...); TextOperator(aliases); identifiers Add(a b c x y z) AddFunc(f g h) AddConst(pi tau)"}
 	for k, v := range extra {
 		m[k] = v
@@ -1592,6 +1621,17 @@ func (h *c3H) tree(tab *c3Table, p *parser2.Parser[string], e *c3E, keep bool) {
 	for _, r := range rs {
 		text := tab.text(r.toks, rng, false)
 		h.validCase(tab, p, e, intended, r.name, r.toks, text, "blank", nontriv)
+		// comfort mode (implicit multiplication) must not change the tokens of a text that has no juxtaposition:
+		// no number, identifier or ')' directly followed by a number, an identifier or '(' (aliases are operators)
+		if c3ComfortNeutral(r.toks) {
+			pc := tab.newParser().Comfort(true)
+			real, pan := c3Tokens(pc, text)
+			c.Count("comfort-neutral-text")
+			if pan != "" || !c3ToksEq(real, r.toks) {
+				c.Violation("comfort-changes-tokens", "comfort mode changes the token list of a text without any juxtaposition (an implicit operator appears next to an operator or alias)",
+					h.replay(tab, "valid", text, map[string]any{"comfort": true, "intended_tokens": c3ToksModel(r.toks), "tokens": c3ToksModel(real), "panic": pan}))
+			}
+		}
 		if rng.Intn(5) < 2 {
 			tt := tab.text(r.toks, rng, true)
 			real, pan := c3Tokens(p, tt)
@@ -1606,6 +1646,16 @@ func (h *c3H) tree(tab *c3Table, p *parser2.Parser[string], e *c3E, keep bool) {
 			h.progs = append(h.progs, c3Prog{tab, r.toks, r.name, nontriv, intended})
 		}
 	}
+}
+
+func c3ComfortNeutral(ts []c3Tok) bool {
+	for i := 1; i < len(ts); i++ {
+		a, b := ts[i-1].K, ts[i].K
+		if (a == 'n' || a == 'i' || a == ')') && (b == 'n' || b == 'i' || b == '(') {
+			return false
+		}
+	}
+	return true
 }
 
 func (h *c3H) countTable(tab *c3Table) {
@@ -1725,12 +1775,18 @@ func (h *c3H) targeted() {
 					u = append(u, x)
 				}
 			}
-			tab := (&c3Table{Ops: ops, Unary: u, Aliases: map[string]string{}}).prepare()
-			p := tab.newParser()
-			h.countTable(tab)
-			for _, e := range c3SmallTrees(tab, 3) {
-				h.c.Count("stream=targeted")
-				h.tree(tab, p, c3Clone(e), false)
+			for route := 0; route < 4; route++ {
+				tab := (&c3Table{Ops: ops, Unary: u, Aliases: map[string]string{}, Route: route}).prepare()
+				p := tab.newParser()
+				h.countTable(tab)
+				depth := 3
+				if route > 0 {
+					depth = 2
+				}
+				for _, e := range c3SmallTrees(tab, depth) {
+					h.c.Count("stream=targeted")
+					h.tree(tab, p, c3Clone(e), false)
+				}
 			}
 		}
 	}
@@ -1755,6 +1811,8 @@ func (h *c3H) randomValid(nTables, treesPer int) {
 	maxB := c.Pick(40, 110)
 	for ti := 0; ti < nTables; ti++ {
 		tab := c3GenTable(rng)
+		tab.Route = rng.Intn(4)
+		c.Count(fmt.Sprintf("table.route=%d", tab.Route))
 		p := tab.newParser()
 		h.countTable(tab)
 		for tj := 0; tj < treesPer; tj++ {
@@ -1804,6 +1862,11 @@ func c3Mutants(rng *rand.Rand, pr *c3Prog) []c3Mut {
 	for _, kw := range []string{"then", "else", "catch", "default", "case", "let"} {
 		set = append(set, c3Tok{'k', kw})
 	}
+	// a string literal whose content is spelled like an operator or a keyword is a string, never that operator/keyword
+	if pr.tab.n() > 0 {
+		set = append(set, c3Tok{'s', pr.tab.Ops[rng.Intn(pr.tab.n())]})
+	}
+	set = append(set, c3Tok{'s', []string{"then", "else", "catch", "(", ")", ","}[rng.Intn(6)]})
 	for i := 0; i <= L; i++ {
 		for _, s := range set {
 			m := make([]c3Tok, 0, L+1)
@@ -2156,6 +2219,7 @@ func (h *c3H) replayFile(path string) {
 		Ops      []string          `json:"ops"`
 		Unary    []string          `json:"unary"`
 		Aliases  map[string]string `json:"aliases"`
+		Route    int               `json:"route"`
 		Text     string            `json:"text"`
 		Intended string            `json:"intended"`
 		Mutation string            `json:"mutation"`
@@ -2165,7 +2229,7 @@ func (h *c3H) replayFile(path string) {
 	if err := json.Unmarshal(data, &r); err != nil {
 		fatal("replay: %v", err)
 	}
-	tab := (&c3Table{Ops: r.Ops, Unary: r.Unary, Aliases: r.Aliases}).prepare()
+	tab := (&c3Table{Ops: r.Ops, Unary: r.Unary, Aliases: r.Aliases, Route: r.Route}).prepare()
 	if tab.Aliases == nil {
 		tab.Aliases = map[string]string{}
 	}
